@@ -83,3 +83,45 @@ def check_intersection(case, rng, n_poses, clause_prefix, forms=("func",)):
     if not out["mism"]:
         out["sample"] = {"a": a, "b": b, "expected": exp, "call": "intersection(a, b)", "poses": n_poses + 1}
     return out
+
+
+# ------------------------------------------------------------------------------------------
+# measures: the specification emits squared lengths, area radicands and a rational volume
+from decimal import Decimal as _D
+from fractions import Fraction as _Fr
+
+
+def _sqrt(fr):
+    return (_D(fr.numerator) / _D(fr.denominator)).sqrt()
+
+
+def expected_measures(m, pose):
+    """float values of the symbolic measures in `m` under the pose; missing keys = not evaluated by TLC (32-bit budget)"""
+    lam = pose.lam
+    out = {}
+    if m.get("len2"):
+        out["length"] = float(sum(_sqrt(_Fr(q[0], q[1])) for q in m["len2"]) * _D(lam.numerator) / _D(lam.denominator))
+    a = m.get("area")
+    if a and a.get("den"):
+        l2 = lam * lam
+        out["area"] = float(sum(_D(n).sqrt() for n in a["rs"]) / _D(a["den"]) * _D(l2.numerator) / _D(l2.denominator))
+    v = m.get("vol")
+    if v and v[1]:
+        out["volume"] = float(abs(_Fr(v[0], v[1])) * lam ** 3)
+    return out
+
+
+def check_measures(lib, m, pose, rel=1e-9):
+    """compare lib.length()/area()/volume() with the specification's measures; returns [(name, why, observed)]"""
+    bad = []
+    n = 0
+    for name, want in expected_measures(m, pose).items():
+        if not hasattr(lib, name):
+            continue
+        val, exc = call(getattr(lib, name))
+        n += 1
+        if exc is not None:
+            bad.append((name, "raised %s at %s" % (exc["cls"], exc["site"]), exc))
+        elif not (abs(float(val) - want) <= rel * max(abs(want), 1e-300)):
+            bad.append((name, "%s %r != exact %r" % (name, float(val), want), {"k": "Num", "x": float(val)}))
+    return bad, n
